@@ -69,6 +69,12 @@ func (s c17Sub) run(ctx sdk.Context, kind, id string, n int64) error {
 		var m map[string]int
 		m["x"] = 1 // runtime error: assignment to entry in nil map
 	case 5:
+		if writes%2 == 1 {
+			// out of gas on a nested, tighter meter (a subscriber metering a sub-call, e.g. a contract):
+			// the block's own meter is not exhausted, the condition must be propagated all the same
+			inner := storetypes.NewGasMeter(1000)
+			inner.ConsumeGas(1001, "scripted out of gas on a nested meter")
+		}
 		ctx.GasMeter().ConsumeGas(ctx.GasMeter().Limit()+1, "scripted out of gas")
 	}
 	return nil
@@ -87,7 +93,7 @@ type c17Timer struct {
 }
 
 func runC17(c *vk.Ctx) {
-	c.R.Rule = "cases = block-time sequences (regular, jittered, multi-epoch gaps, equal times, times before the start time) over 1-6 timers with durations 1s..1 week and 1-4 scripted subscribers whose outcome at each signal (success / error / string, error or runtime panic / out-of-gas, each after 0-3 partial writes) is drawn from the seed; after every block the epoch infos, the hook call trace and each subscriber's key space are compared with the model. distinct_nontrivial counts distinct (#timers ticking in the block, initial-start?, multiset of subscriber outcomes in the block, block result) tuples."
+	c.R.Rule = "cases = block-time sequences (regular, jittered, multi-epoch gaps, equal times, times before the start time) over 1-6 timers with durations 1s..1 week and 1-4 scripted subscribers whose outcome at each signal (success / error / string, error or runtime panic / out-of-gas on the block's meter or on a nested tighter meter, each after 0-3 partial writes) is drawn from the seed; after every block the epoch infos, the hook call trace and each subscriber's key space are compared with the model. distinct_nontrivial counts distinct (#timers ticking in the block, initial-start?, multiset of subscriber outcomes in the block, block result) tuples."
 	nSeq := c.N(2000, 40000)
 	nBlocks := c.N(200, 400)
 	c.Cases("sequence", nSeq, func(i int, r *vk.Rng) {
